@@ -16,7 +16,7 @@ LEVEL = ("Generated-input exploration: for every training sample an LP over the 
          "distance and zero high-dimensional residual, queries inside the footprint are signed correctly, and the selection is invariant "
          "under added points above the hull and positive affine maps of y; every row is scored independently of the batch it is in "
          "(also for fixed data sets of 2049..6000 samples). No absence claim: strength = counted distinct non-trivial cases.")
-BUDGET = {"quick": 300, "thorough": 3000}
+BUDGET = {"quick": 300, "thorough": 8000}
 WATCHDOG = {"quick": 60, "thorough": 240}
 RULE = ("Cases: 1..3 hull dimensions, 0..3 additional high-dimensional columns, any choice and order of low_dim_idx, n in ld+3..20 "
         "(thorough 60) generic samples, convex (noisy paraboloid) or non-convex targets, 5 query points inside the footprint (convex "
